@@ -448,7 +448,8 @@ class FlowGen:
                       [("expr", ("int", 0))])
             ctx = ch.choice(["log-arg", "call-arg", "operand", "setindex",
                              "map-value", "set-elem", "obj-member",
-                             "setmember", "named-arg", "index", "cond"])
+                             "setmember", "named-arg", "index", "cond",
+                             "callee", "catch-selector"])
             self.features.add("exit-in-" + ctx)
             if ctx == "log-arg":
                 return [tag_log(self.tag(), ex)]
@@ -473,6 +474,13 @@ class FlowGen:
             if ctx == "cond":
                 return [("if", [(ex, [self.observe(vars_)])],
                          [self.observe(vars_)])]
+            if ctx == "callee":
+                return [tag_log(self.tag(), ("call", ex,
+                                             [("pos", ("int", 1))]))]
+            if ctx == "catch-selector":
+                return [("block", [("error", ("int", 77))],
+                         [(ex, [self.observe(vars_)]),
+                          (None, [self.observe(vars_)])], None)]
             t = self.fresh("t")
             if ctx == "setindex":
                 return [("def", t, ("list", [("int", 0)])),
